@@ -82,8 +82,12 @@ class C01(Prop):
             ev = dg.gen_event(rng, want_loc=False)
             if not ev['types']:
                 continue
-            yield {'kind': 'frontend', 'event': ev, 'mts': [], 'marginalise': True, 'return_zero': True, 'probe': 'none',
-                   'probe_seed': rng.randrange(1 << 30), 'dc': rng.random() < 0.4, 'samples': rng.choice([40, 120])}
+            # the data dictionary may hold more types than the inversion is asked to use: only the selected ones contribute
+            keys = sorted(ev['types'])
+            sel = keys if (len(keys) == 1 or rng.random() < 0.5) else sorted(rng.sample(keys, rng.randint(1, len(keys) - 1)))
+            ev_sel = {'types': {k: ev['types'][k] for k in sel}, 'loc': None, 'weights': None}
+            yield {'kind': 'frontend', 'event': ev_sel, 'event_full': ev, 'options': sel, 'mts': [], 'marginalise': True, 'return_zero': True,
+                   'probe': 'none', 'probe_seed': rng.randrange(1 << 30), 'dc': rng.random() < 0.4, 'samples': rng.choice([40, 120])}
 
     # ------------------------------------------------------------------ implementation
     def _task(self, ev, mts, marginalise, return_zero):
@@ -160,7 +164,7 @@ class C01(Prop):
         import shutil
         import tempfile
         np, inv = self.np, self.inv
-        data, _loc = dg.to_mtfit(case['event'], np)
+        data, _loc = dg.to_mtfit(case.get('event_full', case['event']), np)
         data['UID'] = 'verif'
         cwd = os.getcwd()
         tmp = tempfile.mkdtemp(prefix='c01fe_')
@@ -170,7 +174,7 @@ class C01(Prop):
             np.random.seed(case['probe_seed'] % (2 ** 32))
             with contextlib.redirect_stdout(sink), contextlib.redirect_stderr(sink):
                 I = inv.Inversion(data, algorithm='iterate', parallel=False, max_samples=case['samples'], number_samples=case['samples'] // 2,
-                                  phy_mem=1, convert=False, dc=case['dc'], inversion_options=sorted(case['event']['types']))
+                                  phy_mem=1, convert=False, dc=case['dc'], inversion_options=list(case.get('options', sorted(case['event']['types']))))
                 I.forward()
                 res, _txt = I.algorithm.output(normalise=False, convert=False)
         finally:
